@@ -91,6 +91,7 @@ theorem compE_mono : ∀ (e : Expr) (Γ : TEnv) (next : Nat) (c : Code) (τ : Ty
   | .lam _ _, _, _, _, _, _, h => by simp [compE] at h
   | .try_ _, _, _, _, _, _, h => by simp [compE] at h
   | .unwrap _, _, _, _, _, _, h => by simp [compE] at h
+  | .panic _, _, _, _, _, _, h => by simp [compE] at h
 
 theorem compS_mono : ∀ (s : Stmt) (Γ : TEnv) (next : Nat) (il : Bool) (c : Code) (τ : Ty) (Γ' : TEnv) (n' : Nat),
     compS Γ next il s = some (c, τ, Γ', n') → next ≤ n'
